@@ -1,7 +1,12 @@
 import ServlinVerif.Props.C06
+import ServlinVerif.Props.C06RoundTrip
 open Servlin.C06
 #print axioms C06_dup_refused
 #print axioms C06_head_shape
 #print axioms C06_sized_body
 #print axioms C06_legacy_bypass
 #print axioms hasField_iff
+#print axioms C06_parses_back
+#print axioms parse_rendered
+#print axioms reason_ok
+#print axioms decVal_decimal
